@@ -166,6 +166,7 @@ func runWE3(c *Ctx, s *Sink) {
 			continue
 		}
 		info := p.TypesInfo
+		defs := collectDefs(info, fd)
 		key := funcName(p, fd)
 		var reg *ast.CallExpr
 		var gostmt *ast.GoStmt
@@ -183,7 +184,7 @@ func runWE3(c *Ctx, s *Sink) {
 				return true
 			})
 			if g, ok := st.(*ast.GoStmt); ok {
-				if l, ok := g.Call.Fun.(*ast.FuncLit); ok {
+				if l := localClosure(info, defs, g.Call.Fun); l != nil {
 					has := false
 					ast.Inspect(l.Body, func(n ast.Node) bool {
 						if call, ok := n.(*ast.CallExpr); ok && isCallTo(info, call, "pkg/obiiter.UnregisterPipe") {
